@@ -26,12 +26,19 @@ for pid in ALL:
                        level_claimed=dict(category="proof", text=M["text"], design_ref="DESIGN.md §4 " + pid),
                        level_note=M["note"],
                        technique=M.get("technique", "machine-checked proof in Rocq (Coq 8.16) over an executable model + model/code correspondence by vm_compute")))
-hooks_commits = []
-hp = os.path.join(vlib.VERIF, "MANIFEST.hooks")
-for l in open(hp):
-    m = re.match(r"^\S+\s+([0-9a-f]{7,40})\s", l)
-    if m and m.group(1) not in hooks_commits:
-        hooks_commits.append(m.group(1))
+# MANIFEST.hooks is regenerated from /repo's history: every commit whose subject starts with "verif hook"
+import subprocess
+log = subprocess.run(["git", "-C", "/repo", "log", "--reverse", "--format=%h%x09%s", "--grep=^verif hook"], capture_output=True, text=True).stdout
+hooks_commits, lines = [], ["# Hooks added to /repo for verification. Guard: Go build tag `verif` (new files start with `//go:build verif`;",
+                            "# calls added to existing code have a no-op twin under `//go:build !verif`). With the tag off the test suite is unchanged.",
+                            "# <file>\t<commit>\t<subject>"]
+for l in log.splitlines():
+    h, subj = l.split("\t", 1)
+    hooks_commits.append(h)
+    files = subprocess.run(["git", "-C", "/repo", "show", "--name-only", "--format=", h], capture_output=True, text=True).stdout.split()
+    for f in files:
+        lines.append("%s\t%s\t%s" % (f, h, subj))
+open(os.path.join(vlib.VERIF, "MANIFEST.hooks"), "w").write("\n".join(lines) + "\n")
 m = dict(version=1, setup_cmd="cd /verif && python3 tools/setup.py",
          hooks=dict(guard="verif",
                     enable="go build -tags verif (scratch harness module generated under /verif/.build/hsrc with replace => /repo; commands: go build -tags verif ./cmd/obitools/...)",
